@@ -31,7 +31,7 @@ func intLit(v int) ts.Expr { return ts.IntLit{V: int64(v)} }
 
 func TestC09(t *testing.T) {
 	r, e := start(t, "C09",
-		"programs of 2-5 files in a temporary tree (sub-directories included) with a random ACYCLIC import graph: chains, diamonds, the same file under two aliases in one importer, std 'strings' next to local files, single and grouped import syntax; each library file has 1-3 public and 0-2 private functions (calling own private functions and imported functions through aliases), 0-2 globals used by its top-level code, 0-3 top-level statements that print and call; equal function and variable names across files on purpose; a nonce comment steers the SHA-256 prefix of each file to digit-leading or letter-leading. Second family (a third of the cases): a generated single-file program (functions with loops, slices, strings, multi-returns) is split - a call-closed set of functions that touch no global moves into one or two imported files under public names - and must print what the reference semantics of the ORIGINAL program prescribe. Negative cases: call of a private function, of an undefined function, through an unknown alias, local import without alias, duplicate alias; visibility enumeration over name spellings (priv, pUB, _hidden, _Hidden, __x, x9, p_Q are private; Pub, P, P9, P_q, PUB, Zz public), each used inside its own file and through the alias. Oracle: module-composition semantics in the reference interpreter (a file's top-level code runs once, after its imports', names resolve per file, public = upper-case initial): exact stdout, status 0, empty stderr (no 'command not found'). Non-trivial = >= 2 imported files with top-level calls, a diamond / repeated alias, or a digit-leading prefix on a file with a global; distinct by sources.",
+		"programs of 2-5 files in a temporary tree (sub-directories included) with a random ACYCLIC import graph: chains, diamonds, the same file under two aliases in one importer, std 'strings' next to local files, single and grouped import syntax; each library file has 1-3 public and 0-2 private functions (calling own private functions and imported functions through aliases), 0-2 globals used by its top-level code, 0-3 top-level statements that print and call; equal function and variable names across files on purpose; a nonce comment steers the SHA-256 prefix of each file to digit-leading or letter-leading. Second family (a third of the cases): a generated single-file program (functions with loops, slices, strings, multi-returns) is split - a call-closed set of functions that touch no global moves into one or two imported files under public names - and must print what the reference semantics of the ORIGINAL program prescribe, under bash and (inside the 32-bit domain) as Batch under the cmd.exe model of C05. Negative cases: call of a private function, of an undefined function, through an unknown alias, local import without alias, duplicate alias; visibility enumeration over name spellings (priv, pUB, _hidden, _Hidden, __x, x9, p_Q are private; Pub, P, P9, P_q, PUB, Zz public), each used inside its own file and through the alias. Oracle: module-composition semantics in the reference interpreter (a file's top-level code runs once, after its imports', names resolve per file, public = upper-case initial): exact stdout, status 0, empty stderr (no 'command not found'). Non-trivial = >= 2 imported files with top-level calls, a diamond / repeated alias, or a digit-leading prefix on a file with a global; distinct by sources.",
 		[]string{"globals of a library file are used by its own top-level code and by its own functions; other files reach a library only through alias.Func (alias.variable is not part of the language)", "cycles belong to C13"})
 	defer r.Flush()
 	_ = e
